@@ -154,3 +154,6 @@ Proof.
     f_equal. pose proof (Byte.to_N_bounded b). change (256 ^ N.of_nat 1) with 256. apply N.mod_small. lia.
   - rewrite be_at_none by (cbn; lia). rewrite byte_at_none by lia. reflexivity.
 Qed.
+
+Lemma be_at_head n v post : be_at (be_enc n v ++ post) 0 n = Some (v mod 256 ^ N.of_nat n).
+Proof. exact (be_at_here [] n v post). Qed.
